@@ -135,6 +135,58 @@ def graphs(draw, steered: bool = False):
     return steer_wildcards(model) if steered else model
 
 
+# Chains of packages that are only reachable by side-loading: package i imports from package i+1; only the head
+# is loaded explicitly, the rest is pulled in while resolving (external=True, or the private-sibling rule of
+# external=None: an alias in package `x` whose target lies in `_x` loads `_x`).
+CHAIN_POOLS = (("p", "q", "r"), ("p", "_p", "__p"), ("q", "_q", "r"), ("p", "q", "_q"), ("r", "q", "p", "_p"))
+_link = st.tuples(st.integers(0, 5), st.integers(0, 5), st.sampled_from(NAMES[:4]), _asname, st.booleans())
+_chain_skeleton = st.tuples(
+    st.sampled_from(CHAIN_POOLS), st.tuples(_pkg_shape, _pkg_shape, _pkg_shape, _pkg_shape), st.lists(_link, min_size=4, max_size=6)
+)
+
+
+@st.composite
+def chain_graphs(draw, steered: bool = False):
+    """-> model with an extra key "chain": package names in side-loading order (head first)."""
+    pool, shapes, links = draw(_chain_skeleton)
+    skeleton = []
+    for name, (single_roll, subs) in zip(pool, shapes):
+        if single_roll == 0:
+            rels = [""]
+        else:
+            subs = list(subs)
+            if "s.a" in subs and "s." not in subs:
+                subs.append("s.")
+            rels = ["", *sorted(subs)]
+        skeleton.append((name, single_roll == 0, rels))
+    all_paths = [name + ("." + rel.rstrip(".") if rel else "") for name, _single, rels in skeleton for rel in rels]
+    bodies: dict[str, list] = {}
+    for name, _single, rels in skeleton:
+        for rel in rels:
+            own = name + ("." + rel.rstrip(".") if rel else "")
+            bodies[own] = _concrete_body(draw(_body), own, all_paths)
+    # the links of the chain (more links than gaps: some packages import from the next one twice / from two places)
+    for i, (src_i, dst_i, name, asname, define) in enumerate(links):
+        gap = i % (len(skeleton) - 1)
+        src_pkg, dst_pkg = skeleton[gap], skeleton[gap + 1]
+        src_rel = src_pkg[2][src_i % len(src_pkg[2])]
+        dst_rel = dst_pkg[2][dst_i % len(dst_pkg[2])]
+        src = src_pkg[0] + ("." + src_rel.rstrip(".") if src_rel else "")
+        dst = dst_pkg[0] + ("." + dst_rel.rstrip(".") if dst_rel else "")
+        bodies[src].insert(0, ["from", 0, dst, name, asname])
+        if define:
+            bodies[dst].append(["def", name])
+    pkgs = []
+    for name, single, rels in skeleton:
+        mods = [[rel, bodies[name + ("." + rel.rstrip(".") if rel else "")]] for rel in rels]
+        pkgs.append({"name": name, "single": single, "mods": mods})
+    model = {"pkgs": pkgs}
+    if steered:
+        model = steer_wildcards(model)
+    model["chain"] = list(pool)
+    return model
+
+
 def _absolute(own: str, own_is_pkg: bool, level: int, mod: str) -> str:
     if level == 0:
         return mod
@@ -260,6 +312,8 @@ def analyse(model) -> tuple[bool, set[str]]:
             is_pkg[path] = (rel == "" and not pkg["single"]) or rel.endswith(".")
     if len(model["pkgs"]) > 1:
         classes.add("multi-package")
+    if model.get("chain"):
+        classes.add("side-loading-chain")
     if any(p["name"] == "_p" for p in model["pkgs"]) and any(p["name"] == "p" for p in model["pkgs"]):
         classes.add("private-sibling-package")
 
